@@ -409,7 +409,7 @@ end
 mutual
 /-- `TypeMono::collapse_type_apps` (phase 2 of mono): applications of generic enums/structs become
 the instance's own nominal type.  `en`/`st` say which constructor names are generic enums/structs.
-`Vec`, `dyn`, primitives, parameters are returned unchanged (the Rust does not descend into `Vec`). -/
+`dyn`, primitives, parameters are returned unchanged. -/
 def collapseTy (en st : Name → Bool) : Ty → Ty
   | .tapp base args =>
     match args with
@@ -423,6 +423,7 @@ def collapseTy (en st : Name → Bool) : Ty → Ty
   | .tfunc ps r => .tfunc (collapseTys en st ps) (collapseTy en st r)
   | .tarray len e => .tarray len (collapseTy en st e)
   | .tref e => .tref (collapseTy en st e)
+  | .tvec e => .tvec (collapseTy en st e)
   | t => t
 def collapseTys (en st : Name → Bool) : List Ty → List Ty
   | [] => []
